@@ -67,6 +67,19 @@ fn collect_tagged_keys(
                         untagged.insert(YamlValue::String(key_str), value);
                     }
                     key => {
+                        // a number, boolean or null used as a key names its member by its text in the
+                        // JSON claims; tags below it are tagged nodes like any others
+                        let name = match &key {
+                            YamlValue::Number(number) => Some(number.to_string()),
+                            YamlValue::Bool(flag) => Some(flag.to_string()),
+                            YamlValue::Null => Some("null".to_string()),
+                            _ => None,
+                        };
+                        if let Some(name) = name {
+                            path.push_back(escape_segment(&name));
+                            collect_tagged_keys(&mut value, path, paths)?;
+                            path.pop_back();
+                        }
                         untagged.insert(key, value);
                     }
                 }
